@@ -378,6 +378,7 @@ func init() {
 				dj := mustJSON(doc)
 				nt := false
 				for _, pol := range []mcrt.Policy{mcrt.Asc, mcrt.Desc} {
+					c.Begin(&Violation{Signature: "fatal crash of the process", Generator: "c15", Input: J{"doc": json.RawMessage(dj)}, Env: J{"policy": int(pol)}})
 					sig, what, nontrivial, outcome := c15Check(dj, pol)
 					if outcome == "" && sig == "" {
 						c.Count("not_loadable", 1)
